@@ -214,6 +214,16 @@ def run(c):
         lines.append(json.dumps({"kind": "exp", "id": nid, "tab": tb, "def": d, "s": s, "adm": a,
                                  "pred": [json.loads(pred[key]["fixed"]), json.loads(pred[key]["pinned"])],
                                  "kd": pred[key]["kd"]}))
+    # reference cycles that pass through a STRUCTURED provider value (a map / list returned for a whole-value reference whose
+    # leaf refers back): "resolution always terminates, reporting an error for reference cycles" leaves one admissible outcome.
+    # (hand-written table TC: ConfResolve.tla's provider tables hold cycles through strings only; seeded change C12-8 gave every
+    # container element a fixpoint budget of its own, so such a cycle is never reported)
+    tc = {"U": "k: ${env:U}", "V": "[1, \"${env:W}\"]", "W": "${env:V}", "Y": "k:\n  j: [\"${env:Y}\"]", "Z": "plain"}
+    lines.insert(0, json.dumps({"kind": "table", "name": "TC", "env": tc}))
+    err = {"t": "err"}
+    for s in ("${env:U}", "${env:V}", "${env:W}", "${env:Y}", "a${env:W}"):
+        nid += 1
+        lines.append(json.dumps({"kind": "exp", "id": nid, "tab": "TC", "def": False, "s": s, "adm": [err], "pred": [err, err], "kd": False}))
     # non-vacuity of the enumeration: every kind of outcome the statement talks about occurs
     kinds = dict(error=0, typed=0, container=0, text=0, several=ndoubt, known=sum(1 for k in pred if pred[k]["kd"]))
     for key in adm:
